@@ -139,14 +139,13 @@ Lemma leaf_nodup mid b vfs nd nd' :
   Trie.leaf resolves body_ok resp_ok mid b vfs nd = Ok nd' -> NoDup (map fst (n_meths nd)) -> NoDup (map fst (n_meths nd')).
 Proof.
   intros H Hn. unfold Trie.leaf in H.
+  destruct (_ && _); [cbn [bind] in H|discriminate].
   destruct (match n_mall nd with Some y => conflict mid y | None => false end); [discriminate|].
   destruct (str_eqb (b_verb b) star_verb).
-  - destruct (existsb _ _); [discriminate|]. destruct (n_mall nd).
-    + inversion H; subst; auto.
-    + destruct (_ && _); [|discriminate]. cbn in H. inversion H; subst; auto.
+  - destruct (existsb _ _); [discriminate|]. destruct (n_mall nd); inversion H; subst; auto.
   - destruct (assoc (b_verb b) (n_meths nd)) eqn:Ea.
     + destruct (conflict mid m); [discriminate|]. inversion H; subst; auto.
-    + destruct (_ && _); [|discriminate]. cbn in H. inversion H; subst. cbn [n_meths].
+    + inversion H; subst. cbn [n_meths].
       rewrite map_app. cbn. apply NoDup_app_snoc; auto. now apply assoc_none_notin.
 Qed.
 
